@@ -1,7 +1,9 @@
-import NeumannModel.Rel.Lemmas
+import NeumannModel.Rel.Preserve
 /-
-  C04 — property theorems: every execution strategy returns exactly the rows that satisfy the condition.
-  ONLY property statements and their non-vacuity examples live here; helpers are in `Lemmas.lean`.
+  C04 — property theorems: every execution strategy returns exactly the rows that satisfy the condition,
+  in every reachable table state.  ONLY property statements and their non-vacuity examples live here;
+  helpers are in `Lemmas.lean` (strategies on a state with the index invariant) and `Preserve.lean`
+  (every operation preserves the invariant).
 -/
 namespace Neumann.Rel.Props
 open Neumann.Rel
@@ -18,11 +20,120 @@ theorem old_hashKey_witness :
   ⟨.float 9223372036854775808, .float 0, by decide, by decide⟩
 
 /-- the B-tree key order agrees with the value order wherever the latter is defined (so a key range is a
-    superset of the matches) -/
+    superset of the matches); NaN, nulls, booleans and cross-type pairs have no value order and never match -/
 theorem cmp_agrees_with_orderedKey (v w : Value) (o : Ordering) (h : partialCmp v w = some o) :
     OKey.cmp (ordKey v) (ordKey w) = o :=
   Neumann.Rel.cmp_agrees_with_orderedKey v w o h
 
 example : partialCmp (.float 9223372036854775808) (.float 4607182418800017408) = some .lt := by decide
+
+/-- insert / update / delete / create index / drop index (successful or failing) preserve the index invariant:
+    every index holds exactly one (key, id) pair per live row, keyed by the row's current value -/
+theorem index_invariant_preserved (t : Table) (op : Op) (h : IdxInv t) : IdxInv (applyOp t op) :=
+  applyOp_preserves t op h
+
+/-- the invariant holds in every reachable state (induction over the operation sequence) -/
+theorem reachable_index_invariant (schema : List (ColType × Bool)) (ops : List Op) : IdxInv (run schema ops) :=
+  run_inv schema ops
+
+/-- a reachable state with live rows, a dead slot, a hash and a B-tree index (hypothesis of the above is inhabited
+    non-trivially, and the strategies below run on it) -/
+def demoOps : List Op :=
+  [.insert [.float 9223372036854775808, .null], .createHash (.col 0), .createOrd (.col 1),
+   .insert [.float 0, .int 5], .insert [.float 4607182418800017408, .int 7],
+   .update (.eq (.col 1) (.int 7)) [(1, .null)], .delete (.eq (.col 0) (.float 4607182418800017408)),
+   .insert [.float 9221120237041090560, .int (-3)]]
+def demoSchema : List (ColType × Bool) := [(.float, false), (.int, true)]
+
+example : spec (run demoSchema demoOps) (.eq (.col 0) (.float 0)) = [1, 2] := by decide
+example : select (run demoSchema demoOps) (.eq (.col 0) (.float 0)) = [1, 2] := by decide
+example : (tryIndexLookup (run demoSchema demoOps) (.rng .lt (.col 1) (.int 6))).isSome = true := by decide
+example : select (run demoSchema demoOps) (.rng .lt (.col 1) (.int 6)) = [2, 4] := by decide
+example : columnarSelect (run demoSchema demoOps) (.rng .lt (.col 1) (.int 6)) = [2, 4] := by decide
+
+/-- **strategies agree**: in every reachable table state (every schema, every sequence of
+    inserts / updates / deletes / index creations / index drops) and for every condition tree, the full scan,
+    the index path of `select` (hash lookup or B-tree range, then re-check), `select_with_limit`, `count`,
+    the streaming cursor and the vectorised columnar filter all return exactly `rows.filter (evaluate c)`
+    (as ascending row ids; limit/offset = that list's window; count = its length) -/
+theorem strategies_agree (schema : List (ColType × Bool)) (ops : List Op) (c : Cond) :
+    let t := run schema ops
+    scanSelect t c = spec t c ∧
+    select t c = spec t c ∧
+    (∀ ids, tryIndexLookup t c = some ids → selectViaIds t c ids = spec t c) ∧
+    (∀ limit offset, selectLimit t c limit offset = ((spec t c).drop offset).take limit) ∧
+    count t c = (spec t c).length ∧
+    (∀ batch, 0 < batch → cursorSelect t c batch = spec t c) ∧
+    columnarSelect t c = spec t c := by
+  intro t
+  have hi : IdxInv t := run_inv schema ops
+  refine ⟨scanSelect_eq_spec t c hi.1, select_eq_spec t hi c, ?_, selectLimit_eq t hi c, count_eq t hi c,
+    fun b hb => cursorSelect_eq t hi c b hb, columnarSelect_eq t hi c⟩
+  intro ids h
+  obtain ⟨hn, hs⟩ := lookup_sound t hi c ids h
+  exact selectViaIds_eq_spec t c ids hi.1 hn hs
+
+/-- creating or dropping an index (hash or B-tree, on any column or `_id`) changes no row and no query answer -/
+theorem create_drop_index_transparent (schema : List (ColType × Bool)) (ops : List Op) (col : ColRef) (q : Cond)
+    (op : Op) (hop : op = .createHash col ∨ op = .createOrd col ∨ op = .dropHash col ∨ op = .dropOrd col) :
+    let t := run schema ops
+    let t' := applyOp t op
+    t'.rows = t.rows ∧ select t' q = select t q ∧ count t' q = count t q ∧
+      columnarSelect t' q = columnarSelect t q ∧
+      (∀ l o, selectLimit t' q l o = selectLimit t q l o) := by
+  intro t t'
+  have hi : IdxInv t := run_inv schema ops
+  have hi' : IdxInv t' := applyOp_preserves t op hi
+  have hrows : t'.rows = t.rows := indexOp_rows t col op hop
+  have hspec : spec t' q = spec t q := by unfold spec; rw [hrows]
+  refine ⟨hrows, ?_, ?_, ?_, ?_⟩
+  · rw [select_eq_spec t' hi' q, select_eq_spec t hi q, hspec]
+  · rw [count_eq t' hi' q, count_eq t hi q, hspec]
+  · rw [columnarSelect_eq t' hi' q, columnarSelect_eq t hi q, hspec]
+  · intro l o; rw [selectLimit_eq t' hi' q, selectLimit_eq t hi q, hspec]
+
+/-- DELETE with a condition removes exactly the rows for which the condition is true (every other slot is
+    untouched), reports their number, and leaves a state in which all strategies agree again -/
+theorem update_delete_touch_exactly (schema : List (ColType × Bool)) (ops : List Op) (c : Cond) :
+    let t := run schema ops
+    (delete t c).1.rows = t.rows.map (fun x => if matchesRow c x then { x with alive := false } else x) ∧
+    (delete t c).2 = (spec t c).length ∧
+    IdxInv (delete t c).1 := by
+  intro t
+  have hi : IdxInv t := run_inv schema ops
+  refine ⟨delete_rows_eq t c hi.1, ?_, delete_preserves t c hi⟩
+  simp [delete, matching, spec]
+
+/-- UPDATE with a condition reports exactly the number of rows for which the condition is true and keeps the
+    index invariant (so all strategies agree afterwards).  Partial: the statement that the new table image is
+    `rows.map (if matches then set-columns else id)` is not proved here (the per-row fold is; the closed form is
+    checked against the real engine and the model on every generated UPDATE by the `image` stream). -/
+theorem update_touch_exactly_partial (schema : List (ColType × Bool)) (ops : List Op) (c : Cond)
+    (sets : List (Nat × Value)) (t' : Table) (n : Nat)
+    (h : update (run schema ops) c sets = .ok (t', n)) :
+    n = (spec (run schema ops) c).length ∧ IdxInv t' := by
+  refine ⟨?_, update_preserves _ c sets t' n (run_inv schema ops) h⟩
+  unfold update at h
+  split at h
+  · cases h
+  · simp only [Except.ok.injEq, Prod.mk.injEq] at h
+    rw [← h.2]; simp [matching, spec]
+
+example : (update (run demoSchema demoOps) (.rng .ge (.col 1) (.int 0)) [(1, .int 9)]).toOption.map (·.2) = some 1 := by
+  decide
+
+/-- the defect found on the real engine (`select_with_limit` truncated the raw index ids before the re-check):
+    with that variant an index changes the answer -/
+theorem limit_truncate_first_witness :
+    ∃ (ops : List Op) (c : Cond),
+      selectLimitTruncFirst (run [(.int, false), (.int, false)] ops) c 1 0 ≠
+        ((spec (run [(.int, false), (.int, false)] ops) c).drop 0).take 1 :=
+  ⟨[.insert [.int 1, .int 0], .insert [.int 1, .int 4], .createHash (.col 0)],
+   .and (.eq (.col 0) (.int 1)) (.eq (.col 1) (.int 4)), by decide⟩
+
+/-- the defect found on the real engine (SIMD leaf ignored the null bitmap): a NULL slot satisfies `x < 5` -/
+theorem columnar_null_mask_witness :
+    intLeafNoNullMask (some .lt) false 5 .null = true ∧
+      evaluate (.rng .lt (.col 0) (.int 5)) 1 [.null] = false := by decide
 
 end Neumann.Rel.Props
